@@ -433,6 +433,16 @@ func (g *schemaGenerator) structFieldValidators(
 		for v, ok := t.(*codegen.ArrayType); ok; v, ok = t.(*codegen.ArrayType) {
 			arrayDepth++
 			if _, ok := v.Type.(codegen.NullType); ok {
+				if f.SchemaType.MinItems != 0 || f.SchemaType.MaxItems != 0 {
+					validators = append(validators, &arrayValidator{
+						fieldName:  f.Name,
+						jsonName:   f.JSONName,
+						arrayDepth: arrayDepth,
+						minItems:   f.SchemaType.MinItems,
+						maxItems:   f.SchemaType.MaxItems,
+					})
+				}
+
 				validators = append(validators, &nullTypeValidator{
 					fieldName:  f.Name,
 					jsonName:   f.JSONName,
